@@ -900,6 +900,33 @@ def rule_impulsetrain(ctx):
     need(len(cor) == 1 and len(cor[0].args) >= 2, R, "p_score: np.correlate call not found")
     mode = cor[0].args[2] if len(cor[0].args) > 2 else dict(cor[0].kw).get("mode")
     yield ob(R, f, "beat.p_score:correlate-mode", mode is not None and tm.is_const(mode, "full"), "the trains are correlated in mode 'full': the lag window is cut around the middle of the full correlation" if mode is not None and tm.is_const(mode, "full") else "np.correlate runs in mode %s: the middle-lag arithmetic below assumes the full correlation, and a window wider than the shorter output wraps to a negative slice start" % (tm.show(mode, 1) if mode is not None else "'valid' (the default)"), node=cor[0].node)
+    # the correlation window is 0.2 * the median *reference* inter-beat interval (documented): the interval series must
+    # be derived from the reference side alone
+    med = [c for c in s.calls() if c.callee == "np.median" and c.args]
+    def side_of(t):
+        """roles of the beat sequences a term is computed from, not counting the common time offset min(est.min(),
+        ref.min()) that both sequences are shifted by, nor the common length of the two trains"""
+        out = set()
+        stack = [t]
+        seen_ = set()
+        while stack:
+            x = stack.pop()
+            if x.id in seen_:
+                continue
+            seen_.add(x.id)
+            if x.op == "call" and call_name(x) in ("builtins.min", "np.min", "builtins.max", "np.max", "np.zeros") and len(tm.params_of(x)) >= 2:
+                continue
+            if x.op == "param":
+                r_ = role_of(x.a[0])
+                if r_:
+                    out.add(r_)
+                continue
+            stack.extend(tm.children(x))
+        return out
+
+    for j, c in enumerate(med):
+        rs = side_of(c.args[0])
+        yield ob(R, f, "beat.p_score:window-from-reference@%d" % j, rs == {"R"}, "the window is a fraction of the median inter-annotation interval of the reference" if rs == {"R"} else "the median interval that sizes the correlation window is computed from %s, not from the reference beats" % ("the estimate" if rs == {"E"} else "both sides" if rs else "neither side"), node=c.node)
     for i, a in enumerate(cor[0].args[:2]):
         if a.op == "call" and a.a[0].op in ("func", "localfunc") and ctx.program.has_func(call_name(a)):
             # the train is built by a helper that was not evaluated in place: read the helper's own result
